@@ -215,14 +215,26 @@ def structure_items(repo):
                                fp.where(loop), func=fp.qualname, witness={"writes": sorted(set(writes))}))
         pushes = [ast.unparse(n) for n in ast.walk(loop) if isinstance(n, ast.Call) and isinstance(n.func, ast.Attribute)
                   and ast.unparse(n.func.value) == "multi_lines" and n.func.attr in ("extendleft", "append", "appendleft", "extend")]
-        okp = pushes == ["multi_lines.extendleft(line_stripped.split(';'))"]
-        guard = any(isinstance(n, ast.If) and ast.unparse(n.test) == "line_stripped.find(';') >= 0"
-                    and any(isinstance(c, ast.Call) and ast.unparse(c) == "multi_lines.extendleft(line_stripped.split(';'))"
-                            for c in ast.walk(n)) for n in ast.walk(loop))
+        # two accepted forms: the pieces of the line with blanked literals, or the slices of the statement text cut at
+        # the same places.  Either way every piece is strictly shorter than the line that was split (a `;` is removed), so
+        # the multiset of stacked lengths decreases whenever a popped piece is split again
+        guards = [n for n in ast.walk(loop) if isinstance(n, ast.If) and ast.unparse(n.test) == "line_stripped.find(';') >= 0"]
+        okp = guard = False
+        if pushes == ["multi_lines.extendleft(line_stripped.split(';'))"]:
+            okp = True
+            guard = any(isinstance(c, ast.Call) and ast.unparse(c) == pushes[0] for g_ in guards for c in ast.walk(g_))
+        elif len(pushes) == 1 and len(guards) == 1:
+            gm = ast.Module(body=guards[0].body, type_ignores=[])
+            okp = guard = shape.has(gm, "statements, start = [], 0\n"
+                                        "for part in line_stripped.split(';'):\n"
+                                        "    statements.append(line_no_comment[start:start + len(part)])\n"
+                                        "    start += len(part) + 1\n"
+                                        "multi_lines.extendleft(statements)",
+                                    fixed=("multi_lines", "line_stripped", "line_no_comment"))
         items.append(term.item("C03/FortranFile.parse/variant.stack_pushes", okp and guard,
-                               "statements are stacked only by splitting a line that contains `;` (the pieces contain none, "
-                               "so a popped piece is never split again)", fp.where(loop), func=fp.qualname,
-                               witness={"pushes": pushes}))
+                               "statements are stacked only by splitting a line that contains `;` outside character literals; every "
+                               "piece is shorter than the line it was cut from", fp.where(loop), func=fp.qualname,
+                               witness={"pushes": pushes}, shape=True))
     # parse_docs / get_docstring never move backwards
     gd = repo.func(f"{PARSER}.FortranFile.get_docstring")
     src = ast.unparse(gd.node)
